@@ -248,3 +248,14 @@ package jid
 //@ nopanic [C11] normalizeDomainpart
 //@ nopanic [C11] resourceChecks
 //@ nopanic [C11] splitString
+
+// The two XML decoders hand exactly the text they were given to Parse (no
+// trimming or other rewriting in between) and store exactly its result; the
+// element decoder reads the character data of the element.
+//@ func (*JID).UnmarshalXML
+//@   callsite Parse#1
+//@     assert[C11] arg0 == data.CharData
+//@ func (*JID).UnmarshalXMLAttr
+//@   callsite Parse#1
+//@     assert[C11] arg0 == attr.Value
+//@ wire[C11] func:(*JID).UnmarshalXML#1.CharData chardata
